@@ -133,7 +133,12 @@ impl Simd for Simd256u {
     }
 
     #[inline(always)]
-    fn gt(&self, _rhs: &Self) -> Self::Mask {
-        todo!()
+    fn gt(&self, rhs: &Self) -> Self::Mask {
+        // unsigned: a > b  <=>  !(a <= b)
+        unsafe {
+            let max = _mm256_max_epu8(self.0, rhs.0);
+            let le = _mm256_cmpeq_epi8(max, rhs.0);
+            Mask256(_mm256_xor_si256(le, _mm256_set1_epi8(-1)))
+        }
     }
 }
